@@ -106,6 +106,10 @@ func isolatedImpl(p *Prop, line string) string {
 		timeout = 20 * time.Second
 	}
 	cmd := exec.Command(os.Args[0], "-prop", p.ID, "-case", line)
+	if len(line) > 100000 {
+		cmd = exec.Command(os.Args[0], "-prop", p.ID, "-case", "-")
+		cmd.Stdin = strings.NewReader(line)
+	}
 	var stdout, stderr strings.Builder
 	cmd.Stdout = &stdout
 	cmd.Stderr = &stderr
